@@ -107,7 +107,7 @@ func (p *Pop) genFresh() *BM {
 	return bm
 }
 
-var popCreateOps = []string{"Fresh", "Clone", "And", "Or", "Xor", "AndNot", "Flip", "AddOffset", "FastOr", "FastAnd", "HeapOr", "HeapXor", "ParOr", "ParAnd", "ParHeapOr"}
+var popCreateOps = []string{"Derive", "Derive", "Fresh", "Clone", "And", "Or", "Xor", "AndNot", "Flip", "AddOffset", "FastOr", "FastAnd", "HeapOr", "HeapXor", "ParOr", "ParAnd", "ParHeapOr"}
 var popMutateOps = []string{"Mutate", "Mutate", "Mutate", "Mutate", "IAnd", "IOr", "IXor", "IAndNot", "AndAny", "Drop", "SetCOW"}
 
 // Step performs one random step. It returns false when the case must stop.
@@ -159,6 +159,55 @@ func (p *Pop) create(op string) {
 			p.live[i].B.SetCopyOnWrite(true)
 		}
 		return
+	case "Derive":
+		// a relative of an existing bitmap: a clone that loses some WHOLE chunks and gains values in neighbouring /
+		// other chunks, so that later operations between the two meet identical chunks, chunks present on one side
+		// only (in front of, between and behind the common ones) and chunks that become empty as a whole
+		a := p.pick()
+		want = p.live[a].M.Clone()
+		var drop, gain []uint64
+		seenK := map[uint64]bool{}
+		for _, v := range splitAtChunks(p.live[a].M.Intervals()) {
+			k := v.Lo >> 16
+			if seenK[k] || len(seenK) > 400 {
+				continue
+			}
+			seenK[k] = true
+			if r.Chance(0.4) {
+				drop = append(drop, k)
+			}
+			if r.Chance(0.3) && k < 0xFFFF {
+				gain = append(gain, k+1)
+			}
+			if r.Chance(0.15) && k > 0 {
+				gain = append(gain, k-1)
+			}
+		}
+		if r.Chance(0.5) {
+			gain = append(gain, edgeVal32(r, want)>>16)
+		}
+		if len(drop) > 12 {
+			c.Step("b%d = Clone(%s) minus %d whole chunks plus values in %d chunks", p.nextName, p.name(a), len(drop), len(gain))
+		} else {
+			c.Step("b%d = Clone(%s) minus whole chunks %v plus values in chunks %v", p.nextName, p.name(a), drop, gain)
+		}
+		c.Guard(sig, func() {
+			res = p.live[a].B.Clone()
+			if p.live[a].B.GetCopyOnWrite() && r.Chance(0.5) {
+				res.SetCopyOnWrite(true)
+			}
+			for _, k := range drop {
+				res.RemoveRange(k<<16, (k+1)<<16)
+				want.RemoveRange(k<<16, k<<16|0xFFFF)
+			}
+			for _, k := range gain {
+				for j := 0; j < 1+r.Intn(3); j++ {
+					v := k<<16 | edgeVal16(r)
+					res.Add(uint32(v))
+					want.Add(v)
+				}
+			}
+		})
 	case "Clone":
 		a := p.pick()
 		c.Step("b%d = Clone(%s)", p.nextName, p.name(a))
